@@ -2,6 +2,7 @@ package c13lib
 
 import (
 	"context"
+	"encoding/binary"
 	"fmt"
 	"log/slog"
 	"net"
@@ -390,7 +391,7 @@ func (d *drv) runExchange(r *lib.Rng, c *client.SCIONClient, flt *recFilter, lg 
 
 	nSure := 0
 	for _, it := range script {
-		if !(it.base == 1 && it.reqFlip != 0) {
+		if !(it.base >= 1 && it.reqFlip != 0) {
 			nSure++
 		}
 	}
@@ -424,7 +425,7 @@ func (d *drv) runExchange(r *lib.Rng, c *client.SCIONClient, flt *recFilter, lg 
 		for k, it := range script {
 			rr := lib.NewRng(uint64(it.flip)*7919 + uint64(it.reqFlip)*104729 + uint64(k))
 			var raw []byte
-			if it.base == 1 {
+			if it.base >= 1 {
 				req := eo.req
 				if it.reqFlip != 0 {
 					req = mutate(rr, req, tagset{})
@@ -443,7 +444,20 @@ func (d *drv) runExchange(r *lib.Rng, c *client.SCIONClient, flt *recFilter, lg 
 				if raw == nil {
 					continue // the listener did not answer: nothing to relay
 				}
-				if it.auth == 1 { // relayed without its end-to-end extension? no: relayed as it is
+				if it.base == 2 {
+					// the listener's authenticated answer with a forged NTP response spliced in front of
+					// its L4 part: same origin timestamp (the client checks it), other server timestamps
+					if pa := parse(raw); pa.ok && pa.isUDP && len(pa.udp.Payload) >= 48 {
+						forged := append([]byte(nil), pa.udp.Payload[:48]...)
+						t := ntp.Time64FromTime(time.Now().Add(time.Duration(1000+k) * time.Second))
+						for _, off := range []int{32, 40} {
+							binary.BigEndian.PutUint32(forged[off:], t.Seconds)
+							binary.BigEndian.PutUint32(forged[off+4:], t.Fraction+uint32(off))
+						}
+						if sp := spliceTail(raw, forged); sp != nil {
+							raw = sp
+						}
+					}
 				}
 			} else {
 				raw = d.craft(rr, q, it, k, prevKey)
@@ -746,6 +760,19 @@ func genCliCase(r *lib.Rng) (*cliCase, string) {
 		tags["multi"] = true
 	}
 	return cc, tags.String()
+}
+
+// runTailmacCli: clients with authentication whose one or two responses are the real listener's
+// answer with a forged response spliced in front of its L4 part (kind cli.tailmac)
+func (d *drv) runTailmacCli(r *lib.Rng, n int) {
+	for i := 0; i < n && !d.lost; i++ {
+		cc := &cliCase{auth: true, seed: r.U64() >> 1}
+		cc.scripts = [][]item{{{base: 2}}}
+		if r.Bool() {
+			cc.scripts = [][]item{{{base: 2}}, {{base: 1}, {base: 2}}}
+		}
+		d.runCli("cli.tailmac", "nt,client-auth,relayed,spliced-l4", cc, r.Intn(nSenders))
+	}
 }
 
 func (d *drv) replayCli(kind, tags, args string) {
